@@ -16,9 +16,64 @@
 import Gozod.Model.JsonSchema
 namespace Gozod.Jsc
 
+/-- the calls that change which fields of an object may be absent (types/object.go). `keys = []` is the call without
+    arguments (`Partial()`, `Required()`; `Partial([]string{})` behaves the same: `len(keys[0]) > 0` is tested). -/
+inductive ObjOp
+  | part (keys : List Str)
+  | req (keys : List Str)
+  deriving DecidableEq, Repr
+
+/-- `ZodObjectInternals.IsPartial / PartialExceptions / RequiredKeys` (a nil map = `none`; maps as key lists). -/
+structure ObjSt where
+  isPartial : Bool := false
+  exceptions : Option (List Str) := none
+  required : List Str := []
+  deriving DecidableEq, Repr
+
+/-- `(*ZodObject).Partial` / `(*ZodObject).Required` on the state; `names` = the field names of the shape.
+    Partial: the exceptions are the shape's fields NOT listed; RequiredKeys is cleared (no keys) or cut down to the
+    exceptions.  Required: all names (no keys), or the old RequiredKeys plus the listed ones; the partial state stays. -/
+def ObjSt.step (names : List Str) (st : ObjSt) : ObjOp → ObjSt
+  | .part keys =>
+      let exc : Option (List Str) := if keys.isEmpty then none else some (names.filter (fun n => !keys.contains n))
+      { isPartial := true, exceptions := exc,
+        required := match exc with
+          | none => []
+          | some e => st.required.filter (fun k => e.contains k) }
+  | .req keys =>
+      { st with required := if keys.isEmpty then names else st.required ++ keys }
+
+def objSt (names : List Str) (ops : List ObjOp) : ObjSt := ops.foldl (ObjSt.step names) {}
+
+/-- `(*ZodObject).isFieldOptional`: RequiredKeys first, then the partial state, then the field schema's own flag. -/
+def ObjSt.fieldOpt (st : ObjSt) (k : Str) (s : S) : Bool :=
+  if st.required.contains k then false
+  else if st.isPartial && (match st.exceptions with | none => true | some e => !e.contains k) then true
+  else s.isOpt
+
+/-- `validateObject`'s field loop for an arbitrary "may be absent" rule (`shapeAccepts part` is the instance
+    `fun _ s => part || s.isOpt`, `shapeAcceptsG_part`). -/
+def shapeAcceptsG (f : Str → S → Bool) : Shape → JsonFields → Bool
+  | .nil, _ => true
+  | .cons k s rest, fs =>
+      (match fs.find k with
+       | none => f k s
+       | some v => accepts s v)
+      && shapeAcceptsG f rest fs
+
+/-- the `required` list of `convertObjectFromShape` once it asks the object (`IsFieldOptional`). -/
+def reqKeysG (f : Str → S → Bool) : Shape → List Str
+  | .nil => []
+  | .cons k s rest => if f k s then reqKeysG f rest else k :: reqKeysG f rest
+
 inductive X
   | base (s : S)
   | lazy (o n : Bool) (x : X)      -- o / n: `.Optional()` / `.Nilable()` applied to the lazy schema itself
+  /-- an object with a history of Partial(keys…) / Required(keys…) calls (at the top of a schema, or under Lazy): the
+      field schemas are base schemas, where nested objects carry the plain `Partial()` flag of `S.obj`. -/
+  | objF (mode : Mode) (ca : SOpt) (ops : List ObjOp) (cks : List SzCk) (shape : Shape)
+
+def X.objSt : Mode → List ObjOp → Shape → ObjSt := fun _ ops shape => Gozod.Jsc.objSt shape.keys ops
 
 /-- the Go result type of `s.Optional()` / `s.Nilable()` is `*string` or `*bool`. -/
 def S.ptrConsulted : S → Bool
@@ -47,6 +102,7 @@ def S.lazyConsults : S → Bool
 def X.consults : X → Bool
   | .base s => s.lazyConsults
   | .lazy o n _ => !(o || n)        -- ZodLazy[any] is a ZodType[any]; ZodLazy[*any] (Optional/Nilable) returns `*any`
+  | .objF _ _ _ _ _ => false        -- Parse returns map[string]any
 
 /-- `Parse` verdict. -/
 def acceptsX : X → Json → Bool
@@ -55,11 +111,23 @@ def acceptsX : X → Json → Bool
       if v.isNull then o || n                 -- validateLazy: `value == nil`
       else if x.consults then acceptsX x v    -- inner.Parse(value, ctx)
       else true                               -- wrapper default branch → lazy-type error → swallowed
+  | .objF mode ca ops cks shape, v => match v with
+      | .obj fs =>
+          shapeAcceptsG ((objSt shape.keys ops).fieldOpt) shape fs
+          && (match mode with
+              | .strict => fs.all (fun k _ => shape.keys.contains k)
+              | .strip => true
+              | .loose => catchAccepts ca shape.keys fs)
+          && szOk cks (match mode with
+              | .strip => (fs.filter (fun k => shape.keys.contains k)).size
+              | _ => fs.size)
+      | _ => false
 
 /-- the value `Parse` returns when it accepts. -/
 def outX : X → Json → Json
   | .base s, v => out s v
   | .lazy _ _ x, v => if v.isNull then v else if x.consults then outX x v else v
+  | .objF mode ca _ cks shape, v => out (.obj mode ca false cks shape) v
 
 /-- `convert` on the schema (`top` = depth 1). -/
 def toJSX (top : Bool) : X → JS
@@ -67,6 +135,14 @@ def toJSX (top : Bool) : X → JS
   | .lazy _ n x =>
       if n then .node (.ofList [.anyOf (.cons (toJSX false x) (.cons nullJS .nil))])
       else toJSX false x
+  | .objF mode ca ops cks shape =>
+      let req := reqKeysG ((objSt shape.keys ops).fieldOpt) shape
+      .node (.ofList (
+        [.type .object]
+        ++ (if shape.keys.isEmpty then [] else [.properties (propsJS shape)])
+        ++ (if req.isEmpty then [] else [.required req])
+        ++ [.additionalProperties (caJS ca mode.isLoose)]
+        ++ propsKws (szBag cks)))
 
 def toDocX (x : X) : JS := toJSX true x
 
@@ -80,9 +156,83 @@ def parseX (x : X) (v : Json) : Option Json := if acceptsX x v then some (outX x
 def reprX (top : Bool) : X → Bool
   | .base s => reprP top s
   | .lazy o n x => x.consults && reprX false x && (if n then true else !o && !acceptsX x .null)
+  | .objF mode ca _ cks shape =>
+      !mode.isStrip && !(mode.isStrict && ca.isSome) && szSimple cks && reprCa ca && reprShape shape
 
 def reprXTop : X → Bool
   | .base s => reprTop true s
+  | .objF .strip ca _ cks shape => szSimple cks && (!ca.isSome || cks.isEmpty) && reprCa ca && reprShape shape
   | x => reprX true x
+
+/-! ## the converter BEFORE the fix C07-object-optionality
+
+`convertObjectFromShape` computed `required` from the field schemas alone (`!propSchema.Internals().IsOptional()`),
+whatever the object's own Partial / Required state says — i.e. it emitted the document of the same schema with every
+such call erased. -/
+
+mutual
+def erasePart : S → S
+  | .opt s => .opt (erasePart s)
+  | .nul s => .nul (erasePart s)
+  | .obj m ca _ cks sh => .obj m (erasePartO ca) false cks (erasePartSh sh)
+  | .slice e cks => .slice (erasePart e) cks
+  | .arr r cks items => .arr (erasePartO r) cks (erasePartL items)
+  | .tup r cks items => .tup (erasePartO r) cks (erasePartL items)
+  | .record k v cks => .record (erasePart k) (erasePart v) cks
+  | .union ms => .union (erasePartL ms)
+  | .xor ms => .xor (erasePartL ms)
+  | .and l r => .and (erasePart l) (erasePart r)
+  | s => s
+def erasePartO : SOpt → SOpt
+  | .none => .none
+  | .some s => .some (erasePart s)
+def erasePartL : SList → SList
+  | .nil => .nil
+  | .cons s ss => .cons (erasePart s) (erasePartL ss)
+def erasePartSh : Shape → Shape
+  | .nil => .nil
+  | .cons k s r => .cons k (erasePart s) (erasePartSh r)
+end
+
+def eraseX : X → X
+  | .base s => .base (erasePart s)
+  | .lazy o n x => .lazy o n (eraseX x)
+  | .objF m ca _ cks sh => .base (.obj m (erasePartO ca) false cks (erasePartSh sh))
+
+/-- the document the converter emitted before the fix. -/
+def toDocLegacy (x : X) : JS := toDocX (eraseX x)
+
+mutual
+/-- no `Partial()` anywhere in the schema. -/
+def noPart : S → Bool
+  | .opt s => noPart s
+  | .nul s => noPart s
+  | .obj _ ca part _ sh => !part && noPartO ca && noPartSh sh
+  | .slice e _ => noPart e
+  | .arr r _ items => noPartO r && noPartL items
+  | .tup r _ items => noPartO r && noPartL items
+  | .record k v _ => noPart k && noPart v
+  | .union ms => noPartL ms
+  | .xor ms => noPartL ms
+  | .and l r => noPart l && noPart r
+  | _ => true
+def noPartO : SOpt → Bool
+  | .none => true
+  | .some s => noPart s
+def noPartL : SList → Bool
+  | .nil => true
+  | .cons s ss => noPart s && noPartL ss
+def noPartSh : Shape → Bool
+  | .nil => true
+  | .cons _ s r => noPart s && noPartSh r
+end
+
+/-- the schemas on which the old converter and the fixed one emit the same document: no Partial() below, and at an
+    object with a call history the calls leave every field as its own schema says. -/
+def legacyOK : X → Bool
+  | .base s => noPart s
+  | .lazy _ _ x => legacyOK x
+  | .objF _ ca ops _ sh =>
+      noPartO ca && noPartSh sh && decide (reqKeysG ((objSt sh.keys ops).fieldOpt) sh = requiredKeys sh)
 
 end Gozod.Jsc
